@@ -177,11 +177,12 @@ def trace_case(draw, tier):
 
 @st.composite
 def roundtrip_case(draw, tier):
-    tps = draw(st.sampled_from([10, 100, 3, 1000, 7, 1, 20]))
-    nticks = draw(st.sampled_from([300, 100, 600]))
+    tps = draw(st.sampled_from([10, 100, 3, 1000, 7, 1, 20, 75, 93, 150, 24]))
+    nticks = draw(st.sampled_from([300, 100, 600, 3, 7, 6, 93, 225]))
     a = draw(st.integers(0, 10))
     b = draw(st.integers(0, 10 - a))
-    params = {"ticks_per_second": tps, "duration": nticks / tps + 0.5 / tps, "random_seed": draw(st.integers(0, 10 ** 6)),
+    dur = draw(st.sampled_from([nticks / tps + 0.5 / tps, nticks / tps, nticks * (1.0 / tps), float(nticks // tps + 1)]))
+    params = {"ticks_per_second": tps, "duration": dur, "random_seed": draw(st.integers(0, 10 ** 6)),
               "waiting_seconds_mean": draw(st.sampled_from([1.0, 0.3, 2.5, 0.7, 5.0])) * draw(st.sampled_from([1, 10 / tps if tps > 10 else 1])),
               "num_pipelines": draw(st.integers(1, 3)), "num_operators": draw(st.integers(1, 4)),
               "cpu_io_ratio": draw(st.sampled_from([0.5, 0.0, 1.0])),
